@@ -16,6 +16,9 @@ def main():
     ap.add_argument('--tier', default=os.environ.get('VERIF_TIER', 'quick'))
     ap.add_argument('--replay')
     a = ap.parse_args()
+    if a.tier == 'thorough':
+        # second solver (cvc5) on a sample of the unsat verdicts, see framework.cross_check
+        os.environ.setdefault('VERIF_CROSSCHECK_EVERY', '5')
     if a.replay:
         from checks import replay
         sys.exit(replay.main(a.prop, a.replay))
